@@ -49,6 +49,9 @@ pub(crate) struct EmbeddedReadHandle<T: TypeConfig> {
     sm: Arc<T::SM>,
     lease: Arc<ReadLease>,
     pub(crate) cmd_tx: mpsc::Sender<d_engine_core::ClientCmd>,
+    /// `Some(default_policy)` when `read_consistency.allow_client_override` is false:
+    /// every read is then served under the server default, whatever the caller asked for.
+    forced_policy: Option<ReadConsistencyPolicy>,
     _phantom: PhantomData<fn() -> T>,
 }
 
@@ -58,6 +61,7 @@ impl<T: TypeConfig> Clone for EmbeddedReadHandle<T> {
             sm: Arc::clone(&self.sm),
             lease: Arc::clone(&self.lease),
             cmd_tx: self.cmd_tx.clone(),
+            forced_policy: self.forced_policy.clone(),
             _phantom: PhantomData,
         }
     }
@@ -73,8 +77,23 @@ impl<T: TypeConfig> EmbeddedReadHandle<T> {
             sm,
             lease,
             cmd_tx,
+            forced_policy: None,
             _phantom: PhantomData,
         }
+    }
+
+    /// Apply the server's read-consistency configuration: when client overrides are
+    /// disabled the handle routes every read by the server default policy.
+    pub(crate) fn with_read_consistency(
+        mut self,
+        config: &d_engine_core::config::ReadConsistencyConfig,
+    ) -> Self {
+        self.forced_policy = if config.allow_client_override {
+            None
+        } else {
+            Some(config.default_policy.clone())
+        };
+        self
     }
 
     /// Single-key read.  Convenience wrapper around [`Self::get_batch`].
@@ -103,6 +122,8 @@ impl<T: TypeConfig> EmbeddedReadHandle<T> {
         client_id: u32,
         timeout: Duration,
     ) -> ClientApiResult<Vec<Option<Bytes>>> {
+        // Client override disabled: route by the server default (mirrors determine_read_policy).
+        let consistency = self.forced_policy.clone().unwrap_or(consistency);
         match consistency {
             ReadConsistencyPolicy::EventualConsistency => {
                 if let Ok(values) = self.sm.get_multi(keys) {
